@@ -77,7 +77,7 @@ let poly_of_spec (n : int) (s : string) : fr list =
         | _ -> failwith "bad sparse") (split_on ',' kv);
       List.init n (fun j -> try Hashtbl.find tbl j with Not_found -> mkfr ZZ.zero)
   | ["r"; seed] -> let seed = z_of_hex seed in List.init n (fun j -> mkfr (prng seed j))
-  | ["x"; vs] -> List.map (fun v -> mkfr (z_of_hex v)) (split_on ',' vs)
+  | ["x"; vs] -> if vs = "-" || vs = "" then [] else List.map (fun v -> mkfr (z_of_hex v)) (split_on ',' vs)
   | _ -> failwith ("bad poly spec " ^ s)
 
 (* ---------- families ---------- *)
